@@ -2,13 +2,24 @@
 //!
 //! Exhaustive enumeration of small AIRs ("specs": constraint trees over every leaf kind of
 //! the AirBuilder vocabulary, sharing on/off, 1–3 constraints, row filters, extension
-//! constraints, lookup contexts), each evaluated on four assignments by
+//! constraints over permutation columns / challenges / cumulated values, lookup contexts,
+//! deep chains) plus the repo's own circuit-table AIRs as fixed programs; each evaluated on
+//! four assignments (all-zero, all-one, two generic) by
 //!   (oracle)  p3's native verifier folders (`p3_uni_stark::VerifierConstraintFolder`,
 //!             `p3_lookup::folder::VerifierConstraintFolderWithLookups` + LogUp gadget), and
 //!   (subject) the repo's `RecursiveAir::eval_folded_circuit` → `CircuitBuilder::build` →
 //!             runner, reading the folded target's witness slot.
 //! Oracle: equality of the two folded values. No sampling: every family is a finite index
 //! range that is enumerated completely (or the cap is reported).
+//!
+//! A violating spec is minimised (greedy shrink that keeps clause and diagnosis) and keyed by
+//! its canonical text — or by its *diagnosed class* when the mismatch is proven to be an
+//! instance of a known mechanism (see `diagnose`).
+//!
+//! Files: spec.rs (trees, enumeration by index, lowering to a shared-object program),
+//! air.rs (`ExprAir`: generic `Air<AB>` replaying a program through the AirBuilder API),
+//! engine_body.rs (native + circuit evaluation, instantiated per field in engine.rs),
+//! families.rs (the finite families), fixed.rs (repo AIRs).
 
 mod air;
 mod common;
@@ -513,31 +524,32 @@ fn main() {
             }
             let mut local_sigs = Vec::with_capacity(CHUNK as usize);
             let mut local_canon = Vec::with_capacity(CHUNK as usize);
+            // per-chunk tallies, merged once (no shared-state traffic per spec)
+            let (mut n_eval, mut n_share, mut n_ext, mut n_nontriv, mut n_equal) = (0u64, 0u64, 0u64, 0u64, 0u64);
             for idx in ch * CHUNK..((ch + 1) * CHUNK).min(fam.count) {
                 let Some(spec) = (fam.spec_at)(idx) else {
                     // index maps to a spec already covered elsewhere in the same family
                     continue;
                 };
+                if !spec.valid() {
+                    vpcore::machinery_error(&format!("family {} produced an ill-formed spec {}", fam.name, spec.canon()));
+                }
                 let want_sample = idx == fam.count / 2;
                 let j = judge(fam.field, &spec, seed, want_sample);
-                st.evaluated.fetch_add(1, Ordering::Relaxed);
-                if spec.share {
-                    st.with_sharing.fetch_add(1, Ordering::Relaxed);
-                }
-                if spec.is_ext_mode() {
-                    st.ext_mode.fetch_add(1, Ordering::Relaxed);
-                }
+                n_eval += 1;
+                n_share += spec.share as u64;
+                n_ext += spec.is_ext_mode() as u64;
                 if j.nontrivial {
-                    st.nontrivial.fetch_add(1, Ordering::Relaxed);
+                    n_nontriv += 1;
                     local_sigs.push(j.sig);
-                    local_canon.push(fnv(&spec.canon()));
+                    local_canon.push(fnv(&format!("{}|{}", fam.field.tag(), spec.canon())));
                 }
                 if let Some(mut s) = j.sample {
                     s["family"] = json!(fam.name);
                     samples.lock().unwrap().push(s);
                 }
                 match &j.bad {
-                    None => clauses.add("equal"),
+                    None => n_equal += 1,
                     Some(b) => {
                         match b.class {
                             Some(c) => {
@@ -555,6 +567,11 @@ fn main() {
                     }
                 }
             }
+            st.evaluated.fetch_add(n_eval, Ordering::Relaxed);
+            st.with_sharing.fetch_add(n_share, Ordering::Relaxed);
+            st.ext_mode.fetch_add(n_ext, Ordering::Relaxed);
+            st.nontrivial.fetch_add(n_nontriv, Ordering::Relaxed);
+            clauses.add_n("equal", n_equal);
             for (set, local) in [(&sigs, local_sigs), (&canon_seen, local_canon)] {
                 let mut g = set.lock().unwrap();
                 if g.len() < SET_CAP {
